@@ -1138,12 +1138,17 @@ class IntFlag(Adapter):
         for v in val:
             if isinstance(v, str):
                 v = self.flag_cls[v]
-            new_val |= v
+            # Plain int arithmetic, an IntFlag operand would mangle negative leftover bits
+            new_val |= int(v)
         return new_val
 
     def decode(self, val: Any, ctx: Optional[ParseContext], pod: bool = False) -> Any:
         if pod:
             return dtypes.flags_to_pod(self.flag_cls, val)
+        if val < 0:
+            # Signed field with the sign bit set, enum.IntFlag can't represent
+            # negative values without changing them. Leave it as an int.
+            return val
         return self.flag_cls(val)
 
     def default_value(self) -> Any:
